@@ -10,6 +10,7 @@ mod engine_world;
 mod kit;
 mod sim_a;
 mod sim_b;
+mod sim_f;
 mod world;
 
 use kit::{Opts, Sim};
@@ -28,6 +29,7 @@ fn dispatch_run(prop: &str, opts: &Opts) -> i32 {
         "C14" => kit::run_batch(&sim_b::SimB { prop: sim_b::PropB::C14 }, opts).exit_code,
         "C15" => kit::run_batch(&sim_b::SimB { prop: sim_b::PropB::C15 }, opts).exit_code,
         "C19" => kit::run_batch(&sim_b::SimB { prop: sim_b::PropB::C19 }, opts).exit_code,
+        "C10" => kit::run_batch(&sim_f::SimF, opts).exit_code,
         other => {
             eprintln!("HARNESS-ERROR: no simulator registered for property {other}");
             2
@@ -44,6 +46,7 @@ fn dispatch_replay(file: &serde_json::Value, verif_dir: &str) -> i32 {
         "C14" => kit::replay(&sim_b::SimB { prop: sim_b::PropB::C14 }, file, verif_dir),
         "C15" => kit::replay(&sim_b::SimB { prop: sim_b::PropB::C15 }, file, verif_dir),
         "C19" => kit::replay(&sim_b::SimB { prop: sim_b::PropB::C19 }, file, verif_dir),
+        "C10" => kit::replay(&sim_f::SimF, file, verif_dir),
         other => {
             eprintln!("HARNESS-ERROR: no simulator registered for property {other}");
             2
